@@ -198,6 +198,40 @@ def macro_compare(ct, gt):
     return "DIFF"
 
 
+def hash_stream(run, tmp, model, quick):
+    rng = run.rng
+    n = 240 if quick else 20000
+    args = [[b'L"wide"'], [b'u8"a\\"b"'], [b"'a'"], [b"L'\\\\'"]] + [[t.encode("latin-1") for t in P.gen_hash_arg(rng)] for _ in range(n)]
+    args = [list(a) for a in dict.fromkeys(tuple(a) for a in args)]
+    _, mo, _ = vlib.run_lines([model], [vlib.enc_case([b"hash"] + a) for a in args])
+    per = 40
+    bad = 0
+    for base in range(0, len(args), per):
+        chunk = args[base:base + per]
+        src = P.macro_source(["#define S(x) #x"], ["S(%s)" % b"".join(a).decode("latin-1") for a in chunk])
+        c, g = both_E(tmp, "h.c", src)
+        ct = P.split_uses(c, len(chunk)) if c is not None else None
+        gt = P.split_uses(g, len(chunk)) if g is not None else None
+        for k, a in enumerate(chunk):
+            m = vlib.dec_line(mo[base + k])
+            ms, mc = m[0].decode("latin-1"), m[1].decode("latin-1")
+            cs = ct[k][0] if ct and ct[k] else None
+            gs = gt[k][0] if gt and gt[k] else None
+            pref = any(re.match(rb"(u8|u|U|L)[\"']", t) for t in a)
+            run.count("hash", None, nontrivial=tuple(a) if any(t[:1] in b"\"'LuU" and len(t) > 1 for t in a) else None,
+                      bucket="%s%s" % ("prefixed literal" if pref else "plain", "" if ms == mc else ", spelling differs (apostrophe)"))
+            if cs == ms and gs == mc:
+                continue
+            bad += 1
+            run.stream("hash")["disagreements"] += 1
+            if bad <= 3:
+                text = b"".join(a).decode("latin-1")
+                run.violation("hash:" + hashlib.sha1(text.encode()).hexdigest()[:12],
+                              "#define S(x) #x / S(%s): cppcheck -E %s (model of expandHash: %s), gcc -E %s (6.10.3.2p2: %s)" % (text, cs, ms, gs, mc),
+                              {"source": P.macro_source(["#define S(x) #x"], ["S(%s)" % text]), "cppcheck_E": cs, "model_simplecpp": ms, "gcc_E": gs, "model_standard": mc},
+                              found_input=(cs != gs and (ms == mc or cs != ms)))
+
+
 def mx_stream(run, tmp, model, quick):
     """three-way on closed #/##-free macro tables: non-recursive tables must agree everywhere (model = cppcheck = gcc);
     on recursive tables a cppcheck != gcc difference is the known re-expansion finding iff the model sides with gcc"""
@@ -506,6 +540,9 @@ def check(run, replay):
 
     # ---- stream M: macro expansion, differential only (no model): cppcheck -E vs gcc -E, token by token
     macro_stream(run, tmp, quick)
+
+    # ---- stream HASH: the stringizing model vs cppcheck -E (simplecpp's spelling) and gcc -E (the standard's)
+    hash_stream(run, tmp, model, quick)
 
     # ---- stream MX: #/##-free closed fragment, extracted expansion model vs cppcheck -E vs gcc -E
     mx_stream(run, tmp, model, quick)
